@@ -71,7 +71,7 @@ def queries(insp):
     safety_outcome(insp)
 
 
-def run(factory, data, chunks, query_at=(), observe=None, step_limit=None):
+def run(factory, data, chunks, query_at=(), observe=None, step_limit=None, as_view=False, keep_feeding=False):
     """Feed data cut as `chunks` (list of lengths, may contain 0).
 
     Returns dict(err=type name or None, err_at=index, verdict=..., steps=[...],
@@ -84,13 +84,22 @@ def run(factory, data, chunks, query_at=(), observe=None, step_limit=None):
     steps = []
     unfaithful = []
     retained_max = 0
+    buf = bytearray(max(list(chunks) + [1])) if as_view else None
     for i, k in enumerate(chunks):
-        chunk = bytes(data[pos:pos + k])
+        if as_view:
+            # the way a readinto() loop hands chunks over: views of ONE buffer that is overwritten by the next read
+            buf[:k] = data[pos:pos + k]
+            for j in range(k, len(buf)):
+                buf[j] = 0xA5
+            chunk = memoryview(buf)[:k]
+        else:
+            chunk = bytes(data[pos:pos + k])
         try:
             insp.eat_chunk(chunk)
         except Exception as e:
-            err = e
-            err_at = i
+            if err is None:
+                err = e
+                err_at = i
         pos += k
         obs = region_obs(insp, data)
         if err is None:
@@ -107,7 +116,7 @@ def run(factory, data, chunks, query_at=(), observe=None, step_limit=None):
         steps.append((k, pos, obs, err is not None, retained))
         if i in query_at:
             queries(insp)
-        if err is not None:
+        if err is not None and not keep_feeding:
             break
     try:
         insp.finish()
